@@ -104,6 +104,7 @@ class AbstractModel(ModelObject):
     def __setstate__(self, state):
         self.__dict__.update(state)
         self._frozen_cache = {}
+        self._set_tuple_priors_frozen(self.__dict__.get("_is_frozen", False))
 
     @assert_not_frozen
     def __delattr__(self, item):
